@@ -1,5 +1,6 @@
 import XsVerif.Props.C19
 import XsVerif.Props.C19Ns
+import XsVerif.Props.C19Fx
 open XsVerif.Props.C19
 #print axioms selectStep_stepFor
 #print axioms path_selects_unique
@@ -26,3 +27,6 @@ open XsVerif.Props.C19
 #print axioms same_map_path_selects
 #print axioms unreadable_step
 #print axioms stale_map_counterexample
+#print axioms fixed_lib_iff_spec
+#print axioms fixed_extra_child_reported
+#print axioms fixed_text_change_reported
